@@ -10,7 +10,7 @@ trap 'git -C /repo worktree remove --force $WT >/dev/null 2>&1; rm -rf $WT /veri
 git -C $WT apply $PATCH || { echo "patch does not apply"; exit 2; }
 cd /verif
 for id in "$@"; do
-  out=$(VERIF_REPO=$WT ./check $id ${TIER:-quick} 2>&1)
+  out=$(VERIF_CAPMIN=${VERIF_CAPMIN:-3} VERIF_REPO=$WT ./check $id ${TIER:-quick} 2>&1)
   rc=$?
   nv=$(echo "$out" | grep -c "^VIOLATION")
   sigs=$(echo "$out" | grep "^VIOLATION" | sed 's/.*sig=//' | sort -u | head -6 | tr '\n' ' ')
